@@ -144,6 +144,80 @@ def _events(args):
     return ev
 
 
+
+def _hapmap_events(args):
+    """AnnotationCollection.alternative_haplotype_mapping: every variant collection (haplotype) handed to the collection
+    is applied to every gene / feature collection it overlaps; haplotypes in any number and order"""
+    seed, n = args
+    setup_repo_import()
+    from inscripta.biocantor.gene.collections import AnnotationCollection
+    from inscripta.biocantor.gene.gene import GeneInterval
+    from inscripta.biocantor.gene.variants import VariantInterval, VariantIntervalCollection
+    from bcverif.props.c06 import mk_tx
+
+    rnd = random.Random(seed)
+    ev = []
+    G = 36
+    for _ in range(n):
+        R = "".join(rnd.choice("ACGT") for _ in range(G))
+        par = _parents(R, None)
+        genes, spans, layouts_ = [], [], []
+        pos = rnd.randrange(0, 4)
+        for gi in range(rnd.randrange(1, 4)):
+            a = pos + rnd.randrange(0, 3)
+            b = a + rnd.randrange(3, 7)
+            blocks = [[a, b]]
+            if rnd.random() < 0.5:
+                c = b + rnd.randrange(1, 4)
+                blocks.append([c, c + rnd.randrange(2, 5)])
+            if blocks[-1][1] > G - 2:
+                break
+            st = rnd.choice("+-")
+            genes.append(GeneInterval([mk_tx(blocks, st, None, None, parent=par, transcript_id="t%d" % gi)],
+                                      gene_id="g%d" % gi, parent_or_seq_chunk_parent=par))
+            spans.append([blocks[0][0], blocks[-1][1]])
+            layouts_.append([blocks, st])
+            pos = blocks[-1][1] + rnd.randrange(1, 4)
+        if not genes:
+            continue
+        vcs, vspans, vlist = [], [], []
+        for vi in range(rnd.randrange(1, 4)):
+            s0 = rnd.randrange(0, G - 3)
+            e0 = s0 + rnd.randrange(1, 3)
+            alt = rnd.choice(["A", "CC", "", "GTA", "T"])
+            try:
+                v = VariantInterval(s0, e0, alt, "x", parent_or_seq_chunk_parent=par, variant_name="v%d" % vi)
+                vcs.append(VariantIntervalCollection([v], parent_or_seq_chunk_parent=par, variant_collection_name="h%d" % vi))
+            except Exception:
+                continue
+            vspans.append([s0, e0])
+            vlist.append([s0, e0, list(alt)])
+        if not vcs:
+            continue
+        order = list(range(len(vcs)))
+        rnd.shuffle(order)
+        try:
+            coll = AnnotationCollection(genes=genes, variant_collections=[vcs[i] for i in order], sequence_name="chr",
+                                        parent_or_seq_chunk_parent=par)
+            m = coll.alternative_haplotype_mapping
+        except Exception as ex:
+            ev.append(["hapmap", spans, vspans, [[0, [E.exc_name(ex)]]]])
+            continue
+        got = []
+        for vi, vc in enumerate(vcs):
+            members = m.get(vc.guid, [])
+            idx = sorted(int(str(x.gene_id)[1:]) + 1 for x in members if getattr(x, "gene_id", None))
+            got.append([vi + 1, idx])
+            # ... and each alternative member is the member with that haplotype's edits applied
+            for x in members:
+                gi = int(str(x.gene_id)[1:])
+                t = x.transcripts[0]
+                io = E.outcome(lambda t=t: (E.loc(t.chromosome_location), list(str(t.get_spliced_sequence()))))
+                ev.append(["inc", "transcript", list(R), [vlist[vi]], layouts_[gi], True, io])
+        ev.append(["hapmap", spans, vspans, got])
+    return ev
+
+
 class _Alt:
     def __init__(self, seq, typ):
         self.sequence, self.type = seq, typ
@@ -243,6 +317,8 @@ def run(chk):
     parts = pmap(_events, [(items[i::64], chk.seed * 503 + i) for i in range(64)])
     evs = [e for p in parts for e in p]
     evs += _vcf_events(chk.seed + 13)
+    parts = pmap(_hapmap_events, [(chk.seed * 509 + i, 25 if quick else 500) for i in range(16)])
+    evs += [e for p in parts for e in p]
     chk.validate("C13Trace", evs, shard=2500, label="variants", keyfn=_key)
     chk.exhaustive = not quick
     chk.nontrivial = len({str(e[1:6]) for e in evs})
